@@ -16,3 +16,4 @@ INVARIANT SingleStep
 INVARIANT SingleShared
 INVARIANT InvNoPartialVerdict
 INVARIANT TempsRemoved
+INVARIANT MemorySound
